@@ -252,3 +252,94 @@ func countPathsMissing(body []ast.Stmt, pred func(ast.Stmt) bool) int {
 	}
 	return paths(body)
 }
+
+// C18-b: a memo table keyed by program position must not be written with a value that depends on the
+// recursion stack. In AcceptedLength the stack is the `seen` parameter; the loop-detected sentinel is only
+// valid while the loop head is on the stack.
+func init() {
+	register("C18",
+		"C18-b (who-may-write, context-free memo): in AcceptedLength no store into the memo map is control-dependent on a test of the recursion stack (`seen`): the value computed on the loop-detected path only holds while the loop head is on the stack, and reusing it from outside the loop made MinLength too large (`a?c+` → 2; repaired in 277e127). The rule finds every assignment to an element of a map-typed local captured by the recursive closure and requires that it is not inside the body of the range over the stack parameter.",
+		ruleC18Memo)
+}
+
+func ruleC18Memo(p *Prog, r *Res) {
+	const rule = "C18-b context-free-memo"
+	r.Rule(rule + ": memo stores are not control-dependent on the recursion-stack test")
+	n := 0
+	for _, fkey := range []string{"regexanalysis.AcceptedLength", "regexanalysis.ConstantSuffix"} {
+		f := p.Fn(fkey)
+		if f == nil {
+			continue
+		}
+		info := f.Pkg.TypesInfo
+		for _, lit := range f.Lits {
+			// the recursive closure: has a slice parameter (the stack)
+			var stack types.Object
+			for _, fld := range lit.Type().Params.List {
+				for _, id := range fld.Names {
+					if isSliceType(info.TypeOf(fld.Type)) {
+						stack = info.Defs[id]
+					}
+				}
+			}
+			if stack == nil {
+				continue
+			}
+			// accumulator parameters: pointer- or slice-typed parameters other than the stack
+			var accs []types.Object
+			for _, fld := range lit.Type().Params.List {
+				for _, id := range fld.Names {
+					t := info.TypeOf(fld.Type)
+					if _, isPtr := t.Underlying().(*types.Pointer); (isPtr || isSliceType(t)) && info.Defs[id] != stack {
+						accs = append(accs, info.Defs[id])
+					}
+				}
+			}
+			ast.Inspect(lit.Body(), func(x ast.Node) bool {
+				as, ok := x.(*ast.AssignStmt)
+				if !ok {
+					return true
+				}
+				for _, l := range as.Lhs {
+					ix, ok := ast.Unparen(l).(*ast.IndexExpr)
+					if !ok {
+						continue
+					}
+					if _, isMap := info.TypeOf(ix.X).Underlying().(*types.Map); !isMap {
+						continue
+					}
+					n++
+					underStack := false
+					ast.Inspect(lit.Body(), func(y ast.Node) bool {
+						if rs, ok := y.(*ast.RangeStmt); ok && sameObj(info, rs.X, stack) && within(as, rs.Body) {
+							underStack = true
+						}
+						return true
+					})
+					key := fmt.Sprintf("%s store %s#%d", lit.Key(), types.ExprString(ix.X), n)
+					r.Check(!underStack, rule, key, p.Pos(as), "not under the recursion-stack test", "the memo is written inside the range over the recursion stack `"+stack.Name()+"`: the stored value depends on what is on the stack and is wrong when reused from another context (too-large MinLength)")
+					// the stored value must not derive from an accumulator parameter (its content depends on the path taken so far)
+					usesAcc := ""
+					for i2, rhs := range as.Rhs {
+						if i2 < len(as.Lhs) && as.Lhs[i2] != l {
+							continue
+						}
+						ast.Inspect(rhs, func(y ast.Node) bool {
+							if id, ok := y.(*ast.Ident); ok {
+								for _, a := range accs {
+									if info.ObjectOf(id) == a {
+										usesAcc = a.Name()
+									}
+								}
+							}
+							return true
+						})
+					}
+					r.Check(usesAcc == "", rule, key+" value is context-free", p.Pos(as), "stored value does not derive from an accumulator parameter", "the memo stores a value derived from the accumulator parameter `"+usesAcc+"`, whose content depends on the path walked so far; a later visit from another path inherits a suffix/length its strings do not have")
+				}
+				return true
+			})
+		}
+	}
+	r.Floor(rule, 2, n)
+}
